@@ -147,12 +147,39 @@ def scan_vars(e, out=None, fn_out=None, in_fn=False):
     return out, fn_out
 
 
+_CONVENTION: list = []
+
+
+def fn_convention():
+    """Whether the library counts the function symbol of a call as an identifier.  The property
+    does not settle this, so both conventions are accepted -- but only one of them, everywhere:
+    it is read off once from the plain assignment ``x <- f(y)`` and every other position
+    (lhs index, condition), statement class and the disambiguation must agree with it."""
+    if not _CONVENTION:
+        try:
+            st = build_stmt(A("s", Var("x"), ("Call", Var("f"), ("tuple", Var("y")))))
+            _CONVENTION.append("f" in st.get_read_variables())
+        except Exception:  # noqa: BLE001
+            _CONVENTION.append(False)
+    return _CONVENTION[0]
+
+
 def stmt_idents(s):
-    """Every identifier (Variable name) occurring in lhs, rhs or condition."""
+    """Every identifier occurring in lhs, rhs or condition: the variables, plus function symbols
+    if the library's convention counts them."""
     out = set()
     for e in s[2:5]:
         a, f = scan_vars(e)
-        out |= a | f
+        out |= a
+        if f and fn_convention():
+            out |= f
+    return out
+
+
+def stmt_fn_symbols(s):
+    out = set()
+    for e in s[2:5]:
+        out |= scan_vars(e)[1]
     return out
 
 
@@ -180,7 +207,8 @@ def rw_reference(s):
 
     required: variables in the rhs, in the index expressions of a subscripted lhs and in the
     condition, outside call-function position.  permitted additionally: the written name and
-    names in call-function position (the property does not settle those)."""
+    names in call-function position under the convention observed for the library
+    (fn_convention: then they are required as well; otherwise they are not permitted)."""
     cls, _id, lhs, rhs, cond, _deps = s
     if cls == "N":
         return set(), set(), set()
@@ -191,7 +219,9 @@ def rw_reference(s):
         scan_vars(cond, req, fns)
     if lhs[0] == "Subscript":
         scan_vars(lhs[2], req, fns)
-    return {w}, req, req | fns | {w}
+    if fn_convention():
+        return {w}, req | fns, req | fns | {w}
+    return {w}, req, req | {w}
 
 # }}}
 
@@ -254,8 +284,9 @@ def filter_pass(filt, name):
 
 # {{{ oracle: fusion and disambiguation
 
-def _match(orig, new, rho):
-    """Structural comparison modulo variable names; records name -> set of new names in *rho*."""
+def _match(orig, new, rho, rho_fn=None, in_fn=False):
+    """Structural comparison modulo variable names; records name -> set of new names in *rho*
+    (variables standing in call-function position: in *rho_fn*, if given)."""
     if orig is None or new is None:
         return orig is None and new is None
     if not isinstance(new, tuple) or not new:
@@ -263,7 +294,8 @@ def _match(orig, new, rho):
     if orig[0] == "Variable":
         if new[0] != "Variable" or new[1][0] != "str":
             return False
-        rho.setdefault(orig[1][1], set()).add(new[1][1])
+        target = rho_fn if (in_fn and rho_fn is not None) else rho
+        target.setdefault(orig[1][1], set()).add(new[1][1])
         return True
     if orig[0] != new[0]:
         return False
@@ -273,7 +305,9 @@ def _match(orig, new, rho):
     if len(co) != len(cn) or len(orig) != len(new):
         return False
     # non-spec payload (e.g. the comparison operator string) lives in children as ("str", ..)
-    return all(_match(a, b, rho) for a, b in zip(co, cn))
+    is_call = orig[0] in ("Call", "CallWithKwargs")
+    return all(_match(a, b, rho, rho_fn, is_call and i == 0)
+               for i, (a, b) in enumerate(zip(co, cn)))
 
 
 def check_transform(a, b, out, idmap, filt, subst):
@@ -299,7 +333,7 @@ def check_transform(a, b, out, idmap, filt, subst):
         fails.append(("fuse:idmap-domain",
                       f"returned id mapping {idmap!r} is not defined exactly on {b_ids}"))
         return fails
-    rho = {}
+    rho, rho_fn = {}, {}
     for i in range(nb):
         o, n = b[i], out[na + i]
         if n[0] != o[0]:
@@ -317,11 +351,11 @@ def check_transform(a, b, out, idmap, filt, subst):
             if n[2:5] != o[2:5]:
                 fails.append(("fuse:body-changed", f"{show_stmt(o)} became {show_stmt(n)}"))
         else:
-            if not all(_match(o[k], n[k], rho) for k in (2, 3, 4)):
+            if not all(_match(o[k], n[k], rho, rho_fn) for k in (2, 3, 4)):
                 fails.append(("disamb:structure-changed",
                               f"{show_stmt(o)} became {show_stmt(n)}"))
     if filt is not None:
-        fails.extend(check_renaming(a, b, out[na:], rho, filt, subst))
+        fails.extend(check_renaming(a, b, out[na:], rho, filt, subst, rho_fn))
     return fails
 
 
@@ -330,20 +364,37 @@ def check_disamb_only(a, b, bout, filt, subst):
     fails = []
     if len(bout) != len(b):
         return [("disamb:length", f"{len(bout)} statements returned, expected {len(b)}")]
-    rho = {}
+    rho, rho_fn = {}, {}
     for o, n in zip(b, bout):
         if (n[0], n[1], n[5]) != (o[0], o[1], o[5]):
             fails.append(("disamb:header-changed", f"{show_stmt(o)} became {show_stmt(n)}"))
-        if not all(_match(o[k], n[k], rho) for k in (2, 3, 4)):
+        if not all(_match(o[k], n[k], rho, rho_fn) for k in (2, 3, 4)):
             fails.append(("disamb:structure-changed", f"{show_stmt(o)} became {show_stmt(n)}"))
-    fails.extend(check_renaming(a, b, bout, rho, filt, subst))
+    fails.extend(check_renaming(a, b, bout, rho, filt, subst, rho_fn))
     return fails
 
 
-def check_renaming(a, b, bout, rho, filt, subst):
-    """*rho*: observed name -> {new names}.  Conditions of the property on the renaming."""
+def check_renaming(a, b, bout, rho, filt, subst, rho_fn=None):
+    """*rho*: observed name -> {new names} (*rho_fn*: the same for function symbols of calls).
+    Conditions of the property on the renaming."""
     fails = []
     ia, ib = stream_idents(a), stream_idents(b)
+    rho = {k: set(v) for k, v in rho.items()}
+    for n, v in (rho_fn or {}).items():
+        if fn_convention():
+            # function symbols are identifiers like any other
+            rho.setdefault(n, set()).update(v)
+        elif n not in ib:
+            # not an identifier of the second stream at all: must be left alone
+            if v != {n}:
+                fails.append(("disamb:function-symbol-renamed",
+                              f"function symbol {n!r} of a call (not a variable of the second "
+                              f"stream) became {sorted(v)}: {show_stream(bout)}"))
+        elif not v <= {n} | rho.get(n, set()):
+            # also a variable of the stream: may follow the variable's renaming or stay
+            fails.append(("disamb:inconsistent",
+                          f"function symbol {n!r} became {sorted(v)}, the variable of that name "
+                          f"{sorted(rho.get(n, ()))}"))
     should = {n for n in ia & ib if filter_pass(filt, n)}
     incons = {n: sorted(v) for n, v in rho.items() if len(v) > 1}
     if incons:
@@ -839,7 +890,9 @@ def rw_fails(s):
                                          f"{sorted(req - got_r)}"))
     if not got_r <= perm:
         fails.append(("read-set-invents", f"{show_stmt(s)}: reports read {sorted(got_r)}, but "
-                                          f"{sorted(got_r - perm)} occur nowhere"))
+                                          f"{sorted(got_r - perm)} are not variables of the statement (they "
+                                          f"occur nowhere, or only as function symbols, which "
+                                          f"'x <- f(y)' does not report)"))
     return fails
 
 
